@@ -39,9 +39,11 @@ m = {
               'source_commits': ['2b3f83258c694a3ff65a4a1b272a06b039ceb0ce', 'a716d5b5dadd5a68cbe5dedb8a920d873ef95596', 'ac25f06d629036c492085a1637aa2ead0ff77c69'], 'add_only': True,
               'what': 'one event per do_render_node call (node kind + 17 scalars of the renderer state + the size estimate of the node), recorded only while html2text::verif::start() is active; validated by spec/trace/TraceSteps.tla'},
     'engines': [{'name': 'tlc', 'path': 'spec/', 'serves_properties': claimed,
-                 'kind_free_text': 'explicit TLA+ specification of html2text (Wrap, Tree, Render step machine, Css, Api, Props) checked with TLC: bounded MC configs in spec/mc, trace specs in spec/trace (TraceProps, TraceModel, TraceSteps); Rust harness h2tv generates/concretises/executes/abstracts'}],
+                 'kind_free_text': 'explicit TLA+ specification of html2text (Wrap, Tree, Render step machine, Css, CssSyntax, Api, Props) checked with TLC: bounded MC configs in spec/mc, trace specs in spec/trace (TraceProps, TraceModel, TraceSteps); Rust harness h2tv generates/concretises/executes/abstracts'},
+                {'name': 'apalache', 'path': 'spec/apalache/', 'serves_properties': ['C01'],
+                 'kind_free_text': 'supplementary, never a verdict: inductive invariant of the column shrink loop for unbounded widths (bin/apalache_shrink; run with thorough C01 and recorded in its evidence)'}],
     'checks': checks,
-    'notes': 'See DESIGN.md. known_findings.json lists recorded findings and fixed defects.',
+    'notes': 'See DESIGN.md. known_findings.json lists recorded findings and fixed defects. seeded/ holds 140 changes to the library that the checks report (bin/selftest re-runs them on scratch worktrees).',
     'not_applicable': na,
 }
 json.dump(m, open(os.path.join(ROOT, 'MANIFEST.json'), 'w'), indent=1)
